@@ -38,6 +38,23 @@ def step (t : List String) : String :=
       if xs.length != 2 * n then "bad-op"
       else showExcept showFloat (selectAlpha (1e-10 : Float) (1.0 : Float) ((xs.take n).zip (xs.drop n)))
     | _, _ => "bad-op"
+  | "capletvol" :: n :: rest =>      -- IborCapVolCurve.caplet_vol(t): n times, n gammas, t
+    match n.toNat?, floats? rest with
+    | some n, some xs =>
+      if xs.length != 2 * n + 1 then "bad-op"
+      else showExcept showFloat (capletVolAt (xs.take n) ((xs.drop n).take n) (xs.getD (2 * n) 0.0))
+    | _, _ => "bad-op"
+  | "capvol" :: n :: rest =>         -- IborCapVolCurve.cap_vol(t): n times, n cap sigmas, t
+    match n.toNat?, floats? rest with
+    | some n, some xs =>
+      if xs.length != 2 * n + 1 then "bad-op"
+      else showExcept showFloat (capVolAt (xs.take n) ((xs.drop n).take n) (xs.getD (2 * n) 0.0))
+    | _, _ => "bad-op"
+  | "sobj" :: which :: rest =>       -- objective of the single-strike alpha solve: black_vol, model_vol
+    match which, floats? rest with
+    | "sabr", some [bv, mv] => showFloat (sabr_strike_objective bv mv)
+    | "shifted", some [bv, mv] => showFloat (sabr_shifted_strike_objective bv mv)
+    | _, _ => "bad-op"
   | _ => "bad-op"
 
 def main : IO Unit := loop step
